@@ -23,7 +23,7 @@
   `eval` is plain evaluation (`op(field)`); `lin e ρ wm` is what `op(Linearization.make_var(ρ, wm))` returns:
   the value, the Jacobian as the composed operator (`jac` = TIMES, `adj` = ADJOINT_TIMES) and the metric,
   transcribing `Linearization.__mul__/_myadd/ptw/vdot/sum/prepend_jac/__getitem__`, `_OpChain/_OpProd/_OpSum.apply`,
-  `LinearOperator.__call__` (drops the metric), `Squared2NormOperator/QuadraticFormOperator/GaussianEnergy.apply`.
+  `LinearOperator.__call__` (drops the metric), `ScalingOperator.__call__` (scales it), `Squared2NormOperator/QuadraticFormOperator/GaussianEnergy.apply`.
 -/
 import NiftyVerif.Gen.Pointwise
 
@@ -185,7 +185,9 @@ def lin : Ex K → MVal K → Bool → Lz K
   | .scale c a, ρ, wm =>
       let la := lin a ρ wm
       { val := fun k i => c * la.val k i, jac := fun h k i => c * la.jac h k i,
-        adj := fun y => la.adj (fun k i => c * y k i), metric := none }
+        adj := fun y => la.adj (fun k i => c * y k i),
+        -- ScalingOperator.__call__: a non-negative real factor scales the metric (sandwich with sqrt), others drop it
+        metric := if (0 : K) ≤ c then la.metric.map (fun M h k i => c * M h k i) else none }
   | .addc c neg a, ρ, wm =>
       let la := lin a ρ wm
       { val := mask a.dom (fun k i => if neg then la.val k i - ofList c i else la.val k i + ofList c i),
